@@ -133,9 +133,19 @@ fn main() {
                 sample: get("sample", "1").parse().unwrap_or(1),
                 max_n: get("max-n", "0").parse().unwrap_or(0),
                 focus: get("focus", ""),
+                cfg_index: get("cfg-index", "-1").parse().unwrap_or(-1),
                 hooks,
             };
             families::generate(&p, &mut out);
+        }
+        "list-cfgs" => {
+            // option sets of the hook-level conformance families, one JSON object per line
+            for c in families::call_cfgs(true) {
+                println!("{}", serde_json::json!({"kind":"run","cfg":c}));
+            }
+            for c in families::stream_cfgs() {
+                println!("{}", serde_json::json!({"kind":"stream","cfg":c}));
+            }
         }
         _ => {
             eprintln!("harness: unknown mode {mode}");
